@@ -22,6 +22,25 @@ Generator : (a) a Hypothesis state machine over ONE script path (awkward names: 
             (c) the same machine with the runs done by child processes (`python -m xonsh`-equivalent
             entry: xonsh.main.main() with --no-rc, script file / -c / stdin), sampled.
             (d) get_cache_filename / code_cache_name over generated pairs of confusable paths / texts.
+            (e) path identity: the script's *name* can be made to resolve to one of three files - the script
+            is a symlink (bin/tool.xsh -> src/t<i>/tool.xsh), a parent directory is one (lnk -> src/t<i>,
+            relative or absolute link text), or there is no link and the same relative name is used from
+            another working directory.  retarget(to, mtime) re-points the name; the new target's mtime is older
+            than every entry / equal to the newest entry's / newer / unchanged (roll-back, roll-forward,
+            alternatives).  The name is spelled absolute, relative, or with a `dir/..` detour.  Runs go
+            through run_script_with_cache, through XonshImportHook.find_spec + get_code (the link then is the
+            sys.path entry) or through environ.xonsh_script_run_control (rc file).  Drawn by the machine, and
+            a fixed family (layout x link text x spelling x entry point x mtime x switches) is always run,
+            two of them with child processes.
+            (f) single-byte damage of a *valid* entry: one byte of the body (or of the header) is xor-ed with
+            a mask, valid header kept.  Complete: every offset x every single-bit mask for a fixed list of
+            small entries (script / import / rc / code exec / code single); sampled by the machine for all
+            other shapes (offsets biased to the scalar fields at the start and the tables at the end).
+            marshal.loads of the damaged body is classified in a throw-away child: exceptions of *any* type
+            (SystemError, UnicodeDecodeError ... not only EOFError / ValueError / TypeError) and non-code
+            objects are 'detectable' and are run; bodies that still load as a code object are counted
+            (undetectable-damage) and never written or executed; bodies that crash / exhaust the
+            unmarshaller are discarded.
 Oracle    : every run's observation (captured stdout, returned exc_info type+message+line, exception raised
             out of the call, resulting namespace; for child processes stdout + exit status) equals the
             observation of compiling and running the *current source* without any cache (compile_code +
@@ -38,7 +57,9 @@ Oracle    : every run's observation (captured stdout, returned exc_info type+mes
 Known     : C19-F1 valid header + marshalled non-code object is executed / TypeError / None;
             C19-F2 an entry that cannot be opened (EACCES) is fatal; C19-F3 code entries are keyed by the
             text only, so an entry compiled for one mode is executed for another mode;
-            C19-F4 a script whose cache file name exceeds NAME_MAX cannot be run with the cache on.
+            C19-F4 a script whose cache file name exceeds NAME_MAX cannot be run with the cache on;
+            C19-F5 a cache hit returns code whose co_filename is the spelling of the name under which the
+            entry was written, not the one of this run (tracebacks / frames name another path).
             Each has a narrow predicate (classify); while open, exactly that shape is not generated
             (counted in excluded_known) and the replay tier reproduces it.
 """
@@ -63,15 +84,19 @@ from vlib.common import Failure, Mismatch, Stats
 PROP = "C19"
 LEVEL = "exploration"
 HOOKS = False
-RULE = ("histories of init(path) / edit(body, newer mtime) / touch / run(switches, script|import) / "
-        "code(text, mode, switches) / corrupt(entry, how) on one script + one data dir under a harness-owned "
-        "clock, drawn by a Hypothesis state machine (in-process and, sampled, with child processes); plus "
-        "every truncation length 0..len of a fixed list of entries (complete); plus pairs of confusable "
+RULE = ("histories of init(path, layout, spelling) / edit(body, newer mtime) / touch / retarget(other file behind "
+        "the same name, its mtime) / run(switches, script|import|rc) / code(text, mode, switches) / corrupt(entry, how "
+        "incl. one xor-ed byte of a valid entry) on one script name + one data dir under a harness-owned "
+        "clock, drawn by a Hypothesis state machine (in-process and, sampled, with child processes); plus a fixed "
+        "family of path-identity histories; plus every truncation length 0..len and every offset x single-bit mask "
+        "of a fixed list of entries (complete); plus pairs of confusable "
         "paths / code strings for the cache-name functions. non-trivial = the history contains a run with "
         "the cache consulted while an entry exists that is stale (edit or touch after it was written) or "
-        "corrupted / for a truncation case: length < len / for a pair: distinct members that both contain "
+        "corrupted, or right after the name was re-pointed to a file that is not newer than an existing entry / "
+        "for a truncation case: length < len / for a byte-damage case: the unmarshaller rejects the damaged body or "
+        "returns a non-code object (so it was written and run) / for a pair: distinct members that both contain "
         "an escaped character or share a 16-char prefix; distinct = hash of the operation list / (entry, "
-        "length) / pair")
+        "length) / (entry, offset, mask) / pair")
 
 F1, F2, F3, F4, F5 = "C19-F1", "C19-F2", "C19-F3", "C19-F4", "C19-F5"
 BASE_TIME = 1_600_000_000           # logical clock origin (well before the real clock)
@@ -660,7 +685,39 @@ def run_child(args, data_dir, sw_env, cwd, stdin_text=None):
     if r.returncode == -9:
         raise common.HarnessError("a child xonsh process was killed with SIGKILL from outside (out of memory?)")
     return {"stdout": r.stdout.decode("utf-8", "replace"), "rc": r.returncode,
-            "_stderr": r.stderr.decode("utf-8", "replace")[-600:]}
+            "_stderr": r.stderr.decode("utf-8", "replace")[-3000:]}
+
+
+def run_child_limited(args, data_dir, sw_env, cwd, outdir):
+    """A child xonsh that may execute *damaged bytecode* (an entry that still loads as a code object): bounded CPU,
+    address space and output, no core file.  -> ('exit', rc, stdout) | ('signal', n, stdout) | ('timeout', None, '')"""
+    import resource
+    import signal
+
+    def limits():
+        resource.setrlimit(resource.RLIMIT_CPU, (8, 8))
+        resource.setrlimit(resource.RLIMIT_AS, (2 << 30, 2 << 30))
+        resource.setrlimit(resource.RLIMIT_FSIZE, (8 << 20, 8 << 20))
+        resource.setrlimit(resource.RLIMIT_CORE, (0, 0))
+
+    os.makedirs(outdir, exist_ok=True)
+    shim = FAST_SHIM % _state["tabledir"] if _state.get("tabledir") else CHILD_SHIM % common.VERIF
+    cmd = [sys.executable, "-c", shim, "--no-rc"] + list(args)
+    with open(os.path.join(outdir, "out"), "wb") as fo, open(os.path.join(outdir, "err"), "wb") as fe:
+        p = subprocess.Popen(cmd, env=child_env(data_dir, sw_env), cwd=cwd, stdin=subprocess.DEVNULL, stdout=fo, stderr=fe,
+                             preexec_fn=limits, start_new_session=True)
+        try:
+            rc = p.wait(timeout=90)
+        except subprocess.TimeoutExpired:
+            try:
+                os.killpg(p.pid, signal.SIGKILL)
+            except OSError:
+                pass
+            p.wait()
+            return "timeout", None, ""
+    with open(os.path.join(outdir, "out"), "rb") as f:
+        out = f.read(1 << 20).decode("utf-8", "replace")
+    return ("signal", -rc, out) if rc < 0 else ("exit", rc, out)
 
 
 # ----------------------------------------------------------------------------------------
@@ -1138,7 +1195,10 @@ class History:
         if path is not None and self.entry_stamp is not None:
             self.last_entry_time = max(self.last_entry_time or 0, self.entry_stamp // 10 ** 9)
         # a corrupted entry must have been replaced when the cache is on under every reading of the switches
+        compiles = self.script_kind not in ("invalid", "invalid2") and \
+            not (self.last_fn.endswith(".py") and self.script_kind in ("env", "sub"))
         if corrupt is not None and sw[0] and sw[2] and corrupt[0] in REBUILDABLE and "raised" not in ref \
+                and (compiles or self.backend != "proc") \
                 and not (corrupt[0] == "header" and corrupt[1] == "sibling-tag") \
                 and not (corrupt[0] == "trunc" and corrupt[3]) \
                 and not (corrupt[0] == "hflip" and corrupt[4] == "header-blank"):
@@ -1749,9 +1809,38 @@ def flip_masks(tier, body_len):
     return None         # per offset: the sign bit and one other bit (see worker_flip)
 
 
+def undetectable_run(h, st, label, path, valid, mutated, off, m):
+    """Not part of the oracle: what happens when an entry that still loads as a code object - different, possibly
+    ill-formed bytecode - is run (in a bounded child process, never in the worker).  Only counted; an interpreter
+    killed by a signal is noted as a candidate for analysis."""
+    fn = h.spelling()
+    envsw = {"XONSH_CACHE_SCRIPTS": "1", "XONSH_CACHE_EVERYTHING": "0"}
+    before = os.stat(path)
+    ref = h.reference(("proc-script", h.script_text, fn), lambda: h.proc_ref([fn]))
+    with open(path, "wb") as f:
+        f.write(mutated)
+    os.utime(path, ns=(before.st_mtime_ns, before.st_mtime_ns))
+    try:
+        how, n, out = run_child_limited([fn], h.data, envsw, h.cwd(), os.path.join(h.root, "limited"))
+    finally:
+        with open(path, "wb") as f:
+            f.write(valid)
+        os.utime(path, ns=(before.st_mtime_ns, before.st_mtime_ns))
+    if how == "exit":
+        res = "same-as-uncached" if (n, out) == (ref["rc"], ref["stdout"]) else "differs-from-uncached"
+    elif how == "signal":
+        res = {24: "cpu-limit", 25: "output-limit", 9: "cpu-limit"}.get(n, "killed-by-signal-%d" % n)
+        if res.startswith("killed"):
+            st.notes.append("candidate for analysis (not a violation): entry %s with byte %d xor %d still loads as a code "
+                            "object; running it killed the interpreter with signal %d" % (label, off, m, n))
+    else:
+        res = "timeout"
+    st.hist["undetectable-run:" + res] += 1
+
+
 def worker_flip(arg):
-    shard, nshards, tier, scratch, open_ids = arg
-    _setup(scratch)
+    shard, nshards, tier, scratch, open_ids, tabledir = arg
+    _setup(scratch, tabledir)
     st = Stats()
     vias = ["script", "import", "rc"]
     hdr = _state["header"]
@@ -1776,12 +1865,13 @@ def worker_flip(arg):
             st.fail(e.failure)
             continue
         try:
-            if cor.get("target") == "code":
-                path = h.code_entry(render_code(cor["kind"], cor["tok"]), cor["mode"])["file"]
-                fname = "<string>"
-            else:
-                path = h.find_entry()
-                fname = h.last_fn
+            def locate(h):
+                if cor.get("target") == "code":
+                    return h.code_entry(render_code(cor["kind"], cor["tok"]), cor["mode"])["file"]
+                return h.find_entry()
+
+            path = locate(h)
+            fname = "<string>" if cor.get("target") == "code" else h.last_fn
             if path is None or not os.path.isfile(path):
                 st.inconclusive += 1
                 st.notes.append("flip base %s: the priming run left no cache entry" % label)
@@ -1804,7 +1894,9 @@ def worker_flip(arg):
                 for off in range(len(hdr)):
                     for b in range(8):
                         plan.append(("hflip", off, 1 << b))
-            for how, off, m in plan:
+            n_undet = 0
+            want_undet = (3 if tier != "thorough" else 40) if (cor.get("target") != "code" and runop.get("via") == "script") else 0
+            for pi, (how, off, m) in enumerate(plan):
                 ops = [dict(cor, how=how, arg=[off, m]), dict(runop)]
                 n0 = len(h.ops)
                 fail = None
@@ -1821,6 +1913,14 @@ def worker_flip(arg):
                 cls = h.flip_class or "no-valid-entry"
                 if cls == "no-valid-entry":
                     raise common.HarnessError("flip enumeration %s: the entry is not valid before a flip (%r)" % (label, ops[0]))
+                if cls == "code" and n_undet < want_undet and pi * want_undet // len(plan) >= n_undet:
+                    # a sample of the damages the oracle does not cover, spread evenly over the entry
+                    n_undet += 1
+                    with open(path, "rb") as f:
+                        now = f.read()
+                    mutated = bytearray(now)
+                    mutated[len(hdr) + off % (len(now) - len(hdr))] ^= m
+                    undetectable_run(h, st, label, path, now, bytes(mutated), off, m)
                 cls = "undetectable-damage" if cls == "code" else cls
                 st.case(("flip", label, how, off, m), done, ["flip-case", "flip-case:" + label.split(":")[0],
                                                               "flipped:" + cls],
@@ -1829,7 +1929,13 @@ def worker_flip(arg):
                 if fail is not None:
                     st.fail(fail)
                     h.close()
-                    h = fresh()
+                    try:
+                        h = fresh()
+                    except Mismatch:
+                        break
+                    path = locate(h)
+                    if path is None or not os.path.isfile(path):
+                        break
                 del h.ops[len(prime):]
                 del h.labels[:]
         finally:
@@ -2153,28 +2259,29 @@ def main(run):
 
     open_ids = sorted(run.known_open)
     quick = run.tier == "quick"
-    nprocs = 12 if quick else 16
+    nprocs = 16
     try:
         nprocs = max(1, min(nprocs, int(os.environ.get("VERIF_PROCS") or nprocs)))
     except ValueError:
         pass
-    n_in, n_proc, n_tr, n_fl = (6, 3, 2, 3) if quick else (11, 3, 4, 12)
-    per_in = run.n(180, 2500)
+    n_in, n_proc, n_tr, n_fl = (8, 3, 2, 3) if quick else (11, 3, 4, 12)
+    per_in = run.n(110, 2500)
     per_proc = run.n(4, 60)
     tasks = []
+    # long tasks first
     for w in range(n_proc):
-        tasks.append(("machine", ("proc", common.worker_seed(run.seed, 50 + w), per_proc, 9,
+        tasks.append(("machine", ("proc", common.worker_seed(run.seed, 50 + w), per_proc, run.n(7, 9),
                                   os.path.join(run.scratch, "p%d" % w), open_ids, tabledir)))
-    tasks.append(("ident", ("proc", run.tier, os.path.join(run.scratch, "ip"), open_ids, tabledir)))
-    tasks.append(("ident", ("inproc", run.tier, os.path.join(run.scratch, "ii"), open_ids, tabledir)))
-    for s in range(n_fl):
-        tasks.append(("flip", (s, n_fl, run.tier, os.path.join(run.scratch, "f%d" % s), open_ids)))
-    for s in range(n_tr):
-        tasks.append(("trunc", (s, n_tr, run.tier, os.path.join(run.scratch, "t%d" % s), open_ids)))
     for w in range(n_in):
         tasks.append(("machine", ("inproc", common.worker_seed(run.seed, w), per_in, run.n(25, 40),
                                   os.path.join(run.scratch, "m%d" % w), open_ids, tabledir)))
+    for s in range(n_fl):
+        tasks.append(("flip", (s, n_fl, run.tier, os.path.join(run.scratch, "f%d" % s), open_ids, tabledir)))
     tasks.append(("inject", (common.worker_seed(run.seed, 90), run.n(5000, 100000), os.path.join(run.scratch, "inj"))))
+    tasks.append(("ident", ("proc", run.tier, os.path.join(run.scratch, "ip"), open_ids, tabledir)))
+    tasks.append(("ident", ("inproc", run.tier, os.path.join(run.scratch, "ii"), open_ids, tabledir)))
+    for s in range(n_tr):
+        tasks.append(("trunc", (s, n_tr, run.tier, os.path.join(run.scratch, "t%d" % s), open_ids)))
     common.pool_map(run, __name__, "worker_any", tasks, procs=nprocs)
 
     h = run.stats.hist
@@ -2182,6 +2289,12 @@ def main(run):
     run.extra["exhaustive_subspace"] = ("every truncation length 0..len of %d cache entries (%d lengths): %s"
                                         % (h.get("trunc-entries", 0), h.get("trunc-length", 0),
                                            ", ".join(b[0] for b in trunc_bases(run.tier))))
+    run.extra["byte_damage"] = {
+        "enumerated (every offset of %d valid entries, %d body bytes)" % (h.get("flip-entries", 0), h.get("flip-bytes", 0)):
+            {k[len("flipped:"):]: v for k, v in sorted(h.items()) if k.startswith("flipped:")},
+        "drawn in histories": {k[len("corrupt:"):]: v for k, v in sorted(h.items())
+                               if k.startswith(("corrupt:flip", "corrupt:hflip"))},
+    }
     run.extra["open_findings_excluded_from_generation"] = open_ids
     if not run.stats.failures:
         def tot(prefix, suffix=""):
@@ -2203,6 +2316,25 @@ def main(run):
             ("child-process histories", h.get("history:proc", 0), 2),
             ("truncation lengths", h.get("trunc-length", 0), 500),
             ("path pairs", h.get("pair:paths", 0), 500),
+            ("runs after the script's name was re-pointed to a file that is not newer than an existing entry, cache on",
+             tot("run-after-retarget:", "not-newer-than-an-entry:cache-on"), 100),
+            ("... through a re-pointed directory link", tot("run-after-retarget:dir", "not-newer-than-an-entry:cache-on"), 20),
+            ("... through a re-pointed file link", tot("run-after-retarget:file", "not-newer-than-an-entry:cache-on"), 20),
+            ("... same relative name from another working directory",
+             tot("run-after-retarget:cwd", "not-newer-than-an-entry:cache-on"), 20),
+            ("fixed path-identity histories", h.get("ident-history:inproc", 0), 20),
+            ("fixed path-identity histories with child processes", h.get("ident-history:proc", 0), 2),
+            ("runs as a run-control file", h.get("via:rc", 0), 10),
+            ("script runs over an entry with one damaged byte", tot("run:corrupt:flip", "cache-on"), 100),
+            ("code runs over an entry with one damaged byte",
+             tot("code:exec:corrupt:flip") + tot("code:single:corrupt:flip"), 50),
+            ("runs over an entry with one damaged header byte", tot("run:corrupt:hflip", "cache-on")
+             + tot("code:exec:corrupt:hflip") + tot("code:single:corrupt:hflip"), 20),
+            ("enumerated single-byte damages", h.get("flip-case", 0), 3000),
+            ("damaged bodies that the unmarshaller rejects with SystemError (not one of the documented three)",
+             h.get("flipped:exc:SystemError", 0) + h.get("corrupt:flip:exc:SystemError", 0), 20),
+            ("damaged bodies that still load as a code object (counted, not run)",
+             h.get("flipped:undetectable-damage", 0) + h.get("corrupt:flip:undetectable-damage", 0), 100),
         ]
         if F1 not in open_ids:
             floors.append(("runs over a non-code entry", tot("run:corrupt:noncode", "cache-on"), 5))
@@ -2215,13 +2347,24 @@ def main(run):
         "edits always give the source a strictly newer mtime than every existing cache entry (logical clock, whole "
         "seconds); replacing the source by different text with an *older or equal* mtime is outside the property",
         "every run starts from the same fresh namespace (xonsh's compilation is context-sensitive; varying the "
-        "namespace between the caching and the cached run is outside the property's quantifier) and the script is "
-        "always named by one spelling of its path",
+        "namespace between the caching and the cached run is outside the property's quantifier); one history uses one "
+        "spelling of the script's name (absolute / relative to the working directory / with a `dir/..` detour over a "
+        "real directory), except that the import hook always works with the absolute path",
         "the uncached reference is compile_code + run_compiled_code applied to the current text (no cache code "
         "involved); bodies avoid the local variable names of run_script_with_cache, which leak into the compile "
         "context when loc is None",
         "a loadable, well-formed code object of the *right* version that simply is different code (e.g. a flipped "
-        "byte inside the bytecode) is not generated: the format has no checksum and the property does not ask for one",
+        "byte inside the bytecode or a constant) is never written nor run: the format has no checksum and the property "
+        "does not ask for one. Single-byte damage of a valid entry is classified by marshal.loads in a throw-away child "
+        "process of the same Python; only damage a loader can notice (any exception except MemoryError, or a non-code "
+        "object) is handed to xonsh; bodies that still load as code are counted as undetectable-damage; bodies that "
+        "make CPython's unmarshaller itself die from a signal, hang or run out of a 256 MB address space are discarded",
+        "a re-pointed name (symlinked script, symlinked parent directory, or the same relative name from another "
+        "working directory) may resolve to a file of any age: older than every entry, exactly as old as the newest "
+        "entry, newer, or unchanged; a file that has been seen before never travels back in time, and its text only "
+        "changes together with a strictly newer mtime",
+        "the run-control entry point is environ.xonsh_script_run_control called directly (what xonshrc_context does per "
+        "file); modules are imported through XonshImportHook.find_spec + get_code, not through `import`",
         "corruptions are files or a directory in place of the entry; symbolic links, FIFOs and unwritable parent "
         "directories in the cache tree are not generated",
         "child processes enter through xonsh.main.main() (what `python -m xonsh` calls) with --no-rc, PYTHONPATH=%s "
